@@ -379,5 +379,51 @@ def missingRequiredError (c : Cmd) (u : UInfo) (m : ArgMap) (pot : List (Id × L
         (fun n => ((c.find n).map fun a => !a.hide).getD false) ++ missing
       (usageWithTitle c u required used).map fun line => (reqArgs, line)
 
+/-! ### what an `ArgumentConflict` error of the validator carries (`validate_exclusive`, `build_conflict_err`,
+`build_conflict_err_usage`); at that point the validator's required graph is still the command's own -/
+
+/-- `Arg::to_string()` -/
+def displayArg (u : UInfo) (a : Arg) : Bytes := Help.display (toHArg u a)
+
+/-- the ids `build_conflict_err` lists: groups unrolled, first occurrence kept -/
+def conflictOthers (c : Cmd) : List Id → List Id → Option (List Id)
+  | [], seen => some seen
+  | cid :: rest, seen =>
+    let ids : Option (List Id) := if (c.findGroup cid).isSome then Validator.argsInGroup c cid else some [cid]
+    match ids with
+    | none => none
+    | some ids => conflictOthers c rest (ids.foldl (fun acc i => if acc.contains i then acc else acc ++ [i]) seen)
+
+/-- `build_conflict_err_usage` -/
+def conflictUsage (c : Cmd) (u : UInfo) (m : ArgMap) (confs : List Id) : Option Bytes :=
+  let usedFiltered := ((Validator.explicitIds m).filter fun n => ((c.find n).map fun a => !a.hide).getD false).filter
+    fun k => !confs.contains k
+  let required := ((usedFiltered.filterMap c.find).flatMap fun a => a.requires.map (·.2)).filter
+    (fun k => !usedFiltered.contains k && !confs.contains k) ++ usedFiltered
+  usageWithTitle c u (Validator.requiredGraph c) required
+
+/-- the first conflict the validator reports: (`InvalidArg`, `PriorArg` strings, usage line); inner `none` = no conflict,
+outer `none` = an `expect` fails -/
+def conflictError (c : Cmd) (u : UInfo) (m : ArgMap) (pot : List (Id × List Id)) : Option (Option (Bytes × List Bytes × Bytes)) :=
+  let explicit := Validator.explicitIds m
+  let present := explicit.filter fun id => (c.find id).isSome
+  let excl : Option Arg :=
+    if present.length ≤ 1 then none else (explicit.filterMap fun id => (c.find id).filter (·.exclusive)).head?
+  match excl with
+  | some a => (usageWithTitle c u (Validator.requiredGraph c) []).map fun line => some (displayArg u a, [], line)
+  | none =>
+    let rec go : List Id → Option (Option (Bytes × List Bytes × Bytes))
+      | [] => some none
+      | id :: ids =>
+        match Validator.gatherConflicts c pot id with
+        | none => none
+        | some [] => go ids
+        | some confs =>
+          match conflictOthers c confs [], c.find id, conflictUsage c u m confs with
+          | some others, some former, some line =>
+            (others.mapM fun i => (c.find i).map (displayArg u)).map fun strs => some (displayArg u former, strs, line)
+          | _, _, _ => none
+    go present
+
 end Usage
 end Clap
